@@ -18,12 +18,12 @@ package keys
 //@   modifies H:keys.Builder.data MemB
 //@   ensures bytes(kb.data) == old(bytes(kb.data)) + encString(s)
 
-// the caller's bytes must not live in the builder's own spare capacity (append would overwrite them before copying)
+// exact when the caller's bytes do not live in the builder's own spare capacity (append would overwrite them before copying)
 //@ func (*Builder).EncodeBytes(kb, b)
 //@   option nosafety
-//@   requires base(b) != base(kb.data)
 //@   modifies H:keys.Builder.data MemB
-//@   ensures bytes(kb.data) == old(bytes(kb.data)) + encBytes(old(bytes(b)))
+//@   ensures @exact base(b) != old(base(kb.data)) ==> bytes(kb.data) == old(bytes(kb.data)) + encBytes(old(bytes(b)))
+//@   ensures @appendOnly hasPrefix(bytes(kb.data), old(bytes(kb.data)) + chr(5) + uvarint(len(b)))
 
 //@ func (*Builder).EncodeUint64(kb, i)
 //@   option nosafety
@@ -71,6 +71,71 @@ package keys
 //@   option nosafety
 //@   modifies nothing
 //@   ensures k.data == bytes(kb.data)
+
+// ------------------------------------------------------------------ Serializable values only ever append to the builder
+//@ iface Serializable.WriteTo(kb)
+//@   modifies H:keys.Builder.data MemB
+//@   ensures hasPrefix(bytes(kb.data), old(bytes(kb.data)))
+
+//@ func (String).WriteTo(s, kb)
+//@   option nosafety
+//@   refines Serializable.WriteTo
+//@   modifies H:keys.Builder.data MemB
+//@   ensures bytes(kb.data) == old(bytes(kb.data)) + encString(s)
+
+//@ func (Bytes).WriteTo(b, kb)
+//@   option nosafety
+//@   refines Serializable.WriteTo
+//@   modifies H:keys.Builder.data MemB
+//@   ensures hasPrefix(bytes(kb.data), old(bytes(kb.data)) + chr(5) + uvarint(len(b)))
+
+//@ func (Byte).WriteTo(b, kb)
+//@   option nosafety
+//@   refines Serializable.WriteTo
+//@   modifies H:keys.Builder.data MemB
+//@   ensures bytes(kb.data) == old(bytes(kb.data)) + chr(1) + chr(b)
+
+//@ func (Bool).WriteTo(b, kb)
+//@   option nosafety
+//@   refines Serializable.WriteTo
+//@   modifies H:keys.Builder.data MemB
+//@   ensures bytes(kb.data) == old(bytes(kb.data)) + encBool(b)
+
+//@ func (Null).WriteTo(n, kb)
+//@   option nosafety
+//@   refines Serializable.WriteTo
+//@   modifies H:keys.Builder.data MemB
+//@   ensures bytes(kb.data) == old(bytes(kb.data)) + chr(0)
+
+//@ func (Unset).WriteTo(n, kb)
+//@   option nosafety
+//@   refines Serializable.WriteTo
+//@   modifies H:keys.Builder.data MemB
+//@   ensures bytes(kb.data) == old(bytes(kb.data)) + chr(11)
+
+//@ func (Uint64).WriteTo(i, kb)
+//@   option nosafety
+//@   refines Serializable.WriteTo
+//@   modifies H:keys.Builder.data MemB
+//@   ensures bytes(kb.data) == old(bytes(kb.data)) + encUint64(i)
+
+//@ func (Array).WriteTo(a, kb)
+//@   option nosafety
+//@   refines Serializable.WriteTo
+//@   modifies H:keys.Builder.data MemB
+//@   ensures hasPrefix(bytes(kb.data), old(bytes(kb.data)) + encArrayHeader(len(a)))
+
+// an array is its header (tag + element count) followed by whatever its elements append
+//@ func (*Builder).EncodeArray(kb, a)
+//@   option nosafety
+//@   modifies H:keys.Builder.data MemB
+//@   loop 0 invariant hasPrefix(bytes(kb.data), old(bytes(kb.data)) + encArrayHeader(len(a)))
+//@   ensures hasPrefix(bytes(kb.data), old(bytes(kb.data)) + encArrayHeader(len(a)))
+
+//@ func (*Builder).Bytes(kb) (out)
+//@   option nosafety
+//@   pure
+//@   ensures out == kb.data
 
 // a pooled builder starts empty: every builder put back into the pool was Reset
 //@ func (*PooledBuilder).Close(b)
